@@ -388,9 +388,49 @@ def to_sdl(desc):
 
 # --------------------------------------------------------------------------
 # code builder
-def to_code(desc, order_rng):
+# trivial subclasses of the type classes: a schema type may be an instance of a
+# subclass (the library's own RegexType(ScalarType), user subclasses)
+class MyScalar(ScalarType):
+    pass
+
+
+class MyObject(ObjectType):
+    pass
+
+
+class MyInterface(InterfaceType):
+    pass
+
+
+class MyUnion(UnionType):
+    pass
+
+
+class MyEnum(EnumType):
+    pass
+
+
+class MyInput(InputObjectType):
+    pass
+
+
+class MyList(ListType):
+    pass
+
+
+class MyNonNull(NonNullType):
+    pass
+
+
+def to_code(desc, order_rng, subclass_rng=None):
+    """subclass_rng: when given, a random subset of the named types are built
+    as instances of trivial subclasses (custom scalars also as RegexType) and,
+    schema-wide, the wrappers as ListType / NonNullType subclasses"""
     dt = {t["name"]: t for t in desc["types"]}
     reg = {}
+    sub = (lambda: subclass_rng.random() < 0.6) if subclass_rng is not None else (lambda: False)
+    List_ = MyList if sub() else ListType
+    NonNull_ = MyNonNull if sub() else NonNullType
     enum_internal = {t["name"]: {v["name"]: v["value"] for v in t["values"]}
                      for t in desc["types"] if t["kind"] == "ENUM"}
 
@@ -398,8 +438,8 @@ def to_code(desc, order_rng):
         if t[0] == "N":
             return BUILTIN.get(t[1]) or reg[t[1]]
         if t[0] == "L":
-            return ListType(ref(t[1]))
-        return NonNullType(ref(t[1]))
+            return List_(ref(t[1]))
+        return NonNull_(ref(t[1]))
 
     def conv(v, t):
         """description-level value (enums by name) -> Python-level coerced value"""
@@ -433,22 +473,28 @@ def to_code(desc, order_rng):
     for t in desc["types"]:
         k, n = t["kind"], t["name"]
         if k == "SCALAR":
-            reg[n] = ScalarType(n, serialize=lambda x: x, parse=lambda x: x, description=t["desc"])
+            if sub() and subclass_rng.random() < 0.6:
+                from py_gql.schema import RegexType
+                reg[n] = RegexType(n, r"^[\s\S]*$", description=t["desc"])
+            else:
+                reg[n] = (MyScalar if sub() else ScalarType)(n, serialize=lambda x: x, parse=lambda x: x,
+                                                             description=t["desc"])
         elif k == "ENUM":
-            reg[n] = EnumType(n, [EnumValue(v["name"], v["value"], deprecation_reason=v["reason"],
+            reg[n] = (MyEnum if sub() else EnumType)(n, [EnumValue(v["name"], v["value"], deprecation_reason=v["reason"],
                                             description=v["desc"]) for v in t["values"]],
                               description=t["desc"])
         elif k == "INPUT_OBJECT":
-            reg[n] = InputObjectType(n, (lambda ivs=t["inputs"]: [mk_iv(InputField, iv) for iv in ivs]),
+            reg[n] = (MyInput if sub() else InputObjectType)(n, (lambda ivs=t["inputs"]: [mk_iv(InputField, iv) for iv in ivs]),
                                      description=t["desc"])
         elif k == "INTERFACE":
-            reg[n] = InterfaceType(n, mk_fields(t["fields"]), description=t["desc"])
+            reg[n] = (MyInterface if sub() else InterfaceType)(n, mk_fields(t["fields"]), description=t["desc"])
         elif k == "OBJECT":
-            reg[n] = ObjectType(n, mk_fields(t["fields"]),
+            reg[n] = (MyObject if sub() else ObjectType)(n, mk_fields(t["fields"]),
                                 interfaces=(lambda ifs=t["interfaces"]: [reg[i] for i in ifs]),
                                 description=t["desc"])
         elif k == "UNION":
-            reg[n] = UnionType(n, (lambda ms=t["members"]: [reg[m] for m in ms]), description=t["desc"])
+            reg[n] = (MyUnion if sub() else UnionType)(n, (lambda ms=t["members"]: [reg[m] for m in ms]),
+                                                       description=t["desc"])
     directives = [Directive(d["name"], d["locations"], args=[mk_iv(Argument, a) for a in d["args"]],
                             description=d["desc"]) for d in desc["directives"]]
     extra = list(reg.values())
@@ -469,7 +515,9 @@ def build(case):
     if case["mode"] == "sdl_text":
         return build_schema(case["sdl"])
     if case["mode"] == "code":
-        return to_code(case["desc"], random.Random(case.get("order_seed", 0)))
+        ss = case.get("subclass_seed")
+        return to_code(case["desc"], random.Random(case.get("order_seed", 0)),
+                       random.Random(ss) if ss is not None else None)
     if case["mode"] == "special":
         return SPECIAL[case["special"]]()
     raise ValueError(case["mode"])
@@ -509,7 +557,26 @@ def _special_list_escapes():
     return Schema(q)
 
 
-SPECIAL = {"list_escapes": _special_list_escapes, "python_name": _special_python_name, "pinned_test": _special_pinned_test,
+def _special_subclassed():
+    """every kind as an instance of a subclass of its type class, incl. the
+    library's RegexType and subclassed wrappers (witness of seeded C15-e)"""
+    from py_gql.schema import RegexType
+    email = RegexType("Email", r"^\S+@\S+$")
+    date = MyScalar("Date", serialize=lambda x: x, parse=lambda x: x)
+    color = MyEnum("Color", [EnumValue("RED", 1), EnumValue("BLUE", 2, deprecation_reason="old")])
+    pt = MyInput("Pt", [InputField("x", MyNonNull(Int)), InputField("mail", email, default_value="a@b.c")])
+    node = MyInterface("Node", [Field("id", ID)])
+    a = MyObject("A", [Field("id", ID), Field("mail", email)], interfaces=[node])
+    b = ObjectType("B", [Field("id", ID), Field("c", MyList(MyNonNull(color)))], interfaces=[node])
+    u = MyUnion("U", [b, a])
+    q = MyObject("Query", [
+        Field("f", Int, [Argument("p", pt), Argument("d", MyList(date), default_value=["2020-01-01"]),
+                         Argument("e", email, default_value="x@y.z")]),
+        Field("n", node), Field("u", MyNonNull(MyList(u))), Field("a", a)])
+    return Schema(q, types=[u, b])
+
+
+SPECIAL = {"subclassed": _special_subclassed, "list_escapes": _special_list_escapes, "python_name": _special_python_name, "pinned_test": _special_pinned_test,
            "enum_internal": _special_enum_internal}
 
 
@@ -850,7 +917,7 @@ def apply_edit(schema, edit):
         class Drop(SchemaVisitor):
             def on_object(self, object_type):
                 if object_type.name == edit["type"]:
-                    return ObjectType(
+                    return object_type.__class__(
                         object_type.name, list(object_type.fields),
                         interfaces=[i for i in object_type.interfaces if i.name != edit["name"]],
                         default_resolver=object_type.default_resolver,
